@@ -210,54 +210,64 @@ pub fn signature(d: &[ShapeDiff]) -> String {
 // ---------------------------------------------------------------------------------------------
 // building blocks
 // ---------------------------------------------------------------------------------------------
-fn u(v: u64) -> E {
+pub fn u(v: u64) -> E {
     E::Leaf(cx::uint(v))
 }
-fn i(v: i64) -> E {
+pub fn i(v: i64) -> E {
     E::Leaf(cx::int(v as i128))
 }
-fn bv(v: &ByteVec) -> E {
+pub fn bv(v: &ByteVec) -> E {
     E::Leaf(cx::bytes(v))
 }
-fn h<const N: usize>(v: &Hash<N>) -> E {
+pub fn h<const N: usize>(v: &Hash<N>) -> E {
     E::Leaf(cx::bytes(v.as_ref()))
 }
-fn t(v: &str) -> E {
+pub fn t(v: &str) -> E {
     E::Leaf(cx::text(v))
 }
-fn arr(items: Vec<(&'static str, E)>) -> E {
+pub fn arr(items: Vec<(&'static str, E)>) -> E {
     E::Arr(items, false)
 }
 /// attributes = {} (the model does not keep anything else)
-fn attributes() -> E {
+pub fn attributes() -> E {
     E::Map(vec![], false)
 }
-fn list<T>(a: &MaybeIndefArray<T>, f: impl Fn(&T) -> E) -> E {
+pub fn list<T>(a: &MaybeIndefArray<T>, f: impl Fn(&T) -> E) -> E {
     let indef = matches!(a, MaybeIndefArray::Indef(_));
     E::Arr(a.iter().map(|x| ("*", f(x))).collect(), indef)
 }
-fn pairs<K: Clone, V: Clone>(m: &KeyValuePairs<K, V>, fk: impl Fn(&K) -> E, fv: impl Fn(&V) -> E) -> E {
+pub fn pairs<K: Clone, V: Clone>(m: &KeyValuePairs<K, V>, fk: impl Fn(&K) -> E, fv: impl Fn(&V) -> E) -> E {
     let indef = matches!(m, KeyValuePairs::Indef(_));
     E::Map(m.iter().map(|(k, v)| (fk(k), fv(v))).collect(), indef)
 }
 /// `[? x]`
-fn zoo<T>(z: &ZeroOrOneArray<T>, f: impl Fn(&T) -> E) -> E {
+pub fn zoo<T>(z: &ZeroOrOneArray<T>, f: impl Fn(&T) -> E) -> E {
     match &**z {
         None => arr(vec![]),
         Some(x) => arr(vec![("0", f(x))]),
     }
 }
 /// a derived array codec with `Option` fields: None is null, trailing None are left out
-fn arr_opt(items: Vec<(&'static str, Option<E>)>) -> E {
+pub fn arr_opt(items: Vec<(&'static str, Option<E>)>) -> E {
     let keep = items.iter().rposition(|(_, e)| e.is_some()).map(|p| p + 1).unwrap_or(0);
     arr(items.into_iter().take(keep).map(|(n, e)| (n, e.unwrap_or(E::Leaf(cx::null())))).collect())
 }
 /// `[u8, encoded-cbor]` of the open-ended variants
-fn other(tag: u8, payload: &ByteVec) -> E {
+pub fn other(tag: u8, payload: &ByteVec) -> E {
     arr(vec![
         ("variant", u(tag as u64)),
         ("payload", E::Either(Box::new(bv(payload)), Box::new(E::Tag(24, Box::new(bv(payload)))))),
     ])
+}
+
+/// exactly this item, compared node by node (so that a difference is reported where it is)
+pub fn exact(n: &Node) -> E {
+    match &n.k {
+        Kind::Array(items, len) => E::Arr(items.iter().map(|x| ("*", exact(x))).collect(), *len == Len::Indef),
+        Kind::Map(items, len) => E::Map(items.iter().map(|(k, v)| (exact(k), exact(v))).collect(), *len == Len::Indef),
+        Kind::Tag(t, _, inner) => E::Tag(*t, Box::new(exact(inner))),
+        _ => E::Leaf(n.clone()),
+    }
 }
 
 // ---------------------------------------------------------------------------------------------
